@@ -325,9 +325,23 @@ def diagnostics(F, R, A):
     pe = F.fn("print_parse_errors")
     pr = F.fn("parser::Parser::print_errors")
     if R.anchor("print_parse_errors", pe) and R.anchor("Parser::print_errors", pr):
-        ok, det = H.bool_fn_is(None, pe, r"^print_errors\(parser\)$")
+        from .lib import decide as D_
+
+        def fn_is(g_, rx, negated):
+            """the boolean function g_ returns exactly the condition matching rx (its negation when `negated`): by its truth
+            table over the conditions it tests, a condition given a name first (`let has_errors = ..`) included"""
+            ok_, det_ = H.bool_fn_is(None, g_, rx, negated=negated)
+            if ok_:
+                return ok_, det_
+            rows, why = D_.table(F, g_, inline=False)
+            if rows is None:
+                return False, det_ + "; " + why
+            # a result that is one of the conditions themselves (`has_errors` returned as it was tested) has that condition's value
+            rows = [(e, r if isinstance(r, bool) else (e[r] if r in e else {"true": True, "false": False}.get(str(r), r))) for e, r in rows]
+            return D_.check(rows, [(rx.strip("^$"), "c")], {"c": (True, False)}, lambda e: (not e["c"]) if negated else e["c"])
+        ok, det = fn_is(pe, r"^(parser\.)?print_errors\((parser)?\)$", False)
         R.ob("errors-stop-execution", "print_parse_errors is true iff print_errors", ok, det, F.loc(pe))
-        ok, det = H.bool_fn_is(None, pr, r"^self\.errors\.is_empty\(\)$", negated=True)
+        ok, det = fn_is(pr, r"^self\.errors\.is_empty\(\)$", True)
         R.ob("errors-stop-execution", "print_errors is true iff errors is non-empty", ok, det, F.loc(pr))
     # (c3) VM construction / run dominated by the success arms
     for fn in ("run_buf", "run_prompt"):
